@@ -159,7 +159,7 @@ def run_history(mode, n, pseed, bounds_kind, fd_opts, ops, stats):
     n_grad_comp = 0  # gradient computations started (model)
     viol = []
     hit_cache = False
-    live = {}  # arrays the caller still owns, by name
+    live = {"live0": x0}  # arrays the caller still owns, by name (incl. the one given to the constructor)
 
     def fresh_g(x):
         xc = np.array(x, dtype=float, copy=True)
